@@ -153,7 +153,9 @@ func (r *generateReader) ReadByte() (byte, error) {
 	switch r.s[si] {
 	case '\\':
 		if r.escape {
+			// An escaped backslash is for the zone lexer: hand over both.
 			r.escape = false
+			r.mod.WriteByte('\\')
 			return '\\', nil
 		}
 
@@ -203,9 +205,12 @@ func (r *generateReader) ReadByte() (byte, error) {
 		fmt.Fprintf(&r.mod, mod, r.cur+offset)
 		return r.mod.ReadByte()
 	default:
-		if r.escape { // Pretty useless here
+		if r.escape {
+			// The escape is not for the template but for the zone lexer
+			// (\. \" \DDD ...): hand over the backslash and the character.
 			r.escape = false
-			return r.ReadByte()
+			r.mod.WriteByte(r.s[si])
+			return '\\', nil
 		}
 
 		return r.s[si], nil
